@@ -369,7 +369,7 @@ pub fn process<I: BufRead, O: Write>(
                 let mut s = code.splitn(2, "/*");
                 // Is there a string start before that point ?
                 let s2 = s.next().unwrap();
-                if !s2.starts_with("#include") && !asm {
+                if !s2.trim_start().starts_with("#include") && !asm {
                     if let Some((left, _)) = s2.split_once('"') {
                         // We have a string start
                         // Let's find the end of the string
